@@ -19,13 +19,17 @@ OBLIGATIONS = [
     (P + "hmac_eq_rfc2104", "hmac over any lawful streaming digest, any key (shorter/equal/longer than the block), any chunking, any number of messages per object = RFC 2104"),
     (P + "hmac_md5_eq_rfc2104", "instance: hmac over the bundled MD5 state machine = RFC 2104 over RFC 1321"),
     (P + "hmac_sha1_eq_rfc2104", "instance: hmac over the bundled SHA-1 state machine = RFC 2104 over FIPS 180-4"),
-    (P + "cbc_dec_enc", "CBC over any block permutation: decrypt (encrypt bs) = bs for any split into encrypt/decrypt calls"),
-    (P + "cbc_calls_chain", "encrypting in several calls on one object = encrypting the concatenation in one call"),
-    (P + "cbc_first_block_trick", "decrypting with a different IV damages only the first block"),
+    (P + "cbc_multi_call_eq_single_call", "cbc object (translated IV bookkeeping: which member array set_iv fills and encrypt/decrypt hand to AES_cbc_encrypt) over the external's contract: any split into whole-block calls = one call, outputs and final IV state, encrypt and decrypt, from any state"),
+    (P + "cbc_interleaved_calls", "any interleaving of encrypt and decrypt calls after set_iv: each direction is one continuous CBC stream from that IV"),
+    (P + "cbc_dec_enc", "over any block permutation: receiver's decrypt calls (any cut) of the sender's encrypt calls (any cut) return the plaintext"),
+    (P + "cbc_first_block_trick", "a receiver whose IV differs (set_nonce_iv) loses only the first block"),
+    (P + "key_file_strict", "key::read_from_file by file content: empty file refused; trailing blanks/tabs/CR/LF dropped (longest prefix not ending in white space), rest through set_hex: accepted iff even-length hex"),
+    (P + "length_field_exact_domain", "for messages < 2^61 bytes the 64-bit length field (spec and translated sha1 bit count / length bytes) holds the true bit length: the domain where FIPS 180-4 defines SHA-1"),
     (P + "key_hex_strict", "set_hex s = ok k  <->  even length, only hex digits, k = value of the digit pairs; otherwise the matching error"),
 ]
 
 ALGOS = {"md5": 64, "sha1": 64, "sha224": 64, "sha256": 64, "sha384": 128, "sha512": 128}
+DS = {"md5": 16, "sha1": 20, "sha224": 28, "sha256": 32, "sha384": 48, "sha512": 64}
 BUNDLED = ("md5", "sha1")
 CHUNK_SIZES = (0, 1, 2, 3, 7, 8, 55, 56, 57, 63, 64, 65, 119, 120, 127, 128, 129, 191, 192, 193)
 
@@ -119,12 +123,22 @@ def gen_hash_cases(c, scale):
             L.append(session_line(rng.choice(("dg", "dg2")), algo, msgs))
         # zero appends before a readout, and empty appends only
         L.append(session_line("dg", algo, [[], [b""], [], [b"", b""]]))
+        # long messages, every run (a length byte above the second only shows from 8 KiB = 2^16 bits, the next from 2 MiB)
+        for n in (8191, 8192, 8193, 16384, 65535, 65536, 65537, 131077):
+            L.append(session_line("dg", algo, [[rbytes(rng, n)]]))
+        for n in (8192, 65536 + B):
+            L.append(session_line("dg2", algo, [chunking(rng, rbytes(rng, n), 2), chunking(rng, rbytes(rng, 8200), 3)]))
+            L.append(session_line("hmac", algo, [chunking(rng, rbytes(rng, n), rng.choice((0, 2)))], rbytes(rng, rng.choice((B - 1, B + 1)))))
+        if c.tier == "thorough" or algo == "sha1":
+            L.append(session_line("dg", algo, [[rbytes(rng, 2097152 + 3)]]))      # 2^24 bits: third length byte
         # longer messages
         for _ in range((3 if algo in BUNDLED else 1) * scale):
             n = rng.choice((5000, 8191, 8192, 65536 + rng.randrange(-70, 70), rng.randrange(4097, 40000)))
             L.append(session_line("dg", algo, [chunking(rng, rbytes(rng, n), rng.choice((0, 2, 3)))]))
         # hmac: keys of 0..3 block sizes x messages x chunkings x reuse
-        klens = sorted({0, 1, B // 2, B - 1, B, B + 1, 2 * B - 1, 2 * B, 2 * B + 1, 3 * B})
+        ds = DS[algo]
+        # incl. keys longer than the digest but not longer than the block: used as they are, never hashed
+        klens = sorted({0, 1, ds - 1, ds, ds + 1, (ds + B) // 2, B // 2, B - 1, B, B + 1, 2 * B - 1, 2 * B, 2 * B + 1, 3 * B})
         for kl in klens:
             key = rbytes(rng, kl)
             for n in (0, 1, B - 9, B - 8, B - 1, B, B + 1, rng.randrange(0, 4 * B)):
@@ -201,6 +215,43 @@ def gen_cbc_queries(c, scale):
     return Q, meta
 
 
+CBC_NAMES = {128: ("aes", "AES", "aes128", "aes-128", "AES-128"), 192: ("aes192", "aes-192", "AES192", "AES-192"), 256: ("aes256", "aes-256", "AES256", "AES-256")}
+
+
+def cookie_len(n, ds):
+    return (n + 4 + 15) // 16 * 16 + 16 + ds
+
+
+def gen_cookie_cases(c, scale):
+    """aes_cipher / aes_factory (src/aes_encryptor.cpp, proved in C05): encrypt -> decrypt identity through the real
+    objects and through an independent libcrypto-only decoder; payload lengths 0..80 (every block boundary), all key sizes.
+    Returns (lines, expected outputs)."""
+    rng = c.rng
+    L, E = [], []
+    for bits in (128, 192, 256):
+        for n in range(0, 81):
+            mac = rng.choice(("sha1", "sha1", "md5", "sha256", "sha384", "sha512", "sha224"))
+            name = rng.choice(CBC_NAMES[bits])
+            ck, mk = rbytes(rng, bits // 8), rbytes(rng, rng.choice((0, 1, 16, 20, 32, 64, 65, 130)))
+            L.append(f"aesrt {name} {ck.hex()} {mac} {hexs(mk)} {hexs(rbytes(rng, n))}")
+            E.append(f"ok {cookie_len(n, DS[mac])}")
+        for n in (100, 255, 256, 1000, 4092, 4093, 65536):
+            ck = rbytes(rng, bits // 8)
+            L.append(f"aesrt {CBC_NAMES[bits][0]} {ck.hex()} sha1 {rbytes(rng, 20).hex()} {hexs(rbytes(rng, n))}")
+            E.append(f"ok {cookie_len(n, 20)}")
+        for kl in (0, 15, bits // 8 - 1, bits // 8 + 1, 64):     # wrong cbc key size: refused at first use
+            if kl != bits // 8:
+                L.append(f"aesrt {CBC_NAMES[bits][0]} {hexs(rbytes(rng, kl))} sha1 0102 616263")
+                E.append("refused")
+        cks = bits // 8
+        for kl in sorted({0, 1, cks - 1, cks, cks + 1, cks + 19, cks + 20, cks + 21, 32, 33, 52, 64, 65, 128}):
+            for n in (0, 11, 12, 13, rng.randrange(0, 81)):
+                name = rng.choice(CBC_NAMES[bits])
+                L.append(f"aesfac {name} {hexs(rbytes(rng, kl))} {hexs(rbytes(rng, n))}")
+                E.append(f"ok {cookie_len(n, 20)}" if kl >= cks else "refused")
+    return L, E
+
+
 def gen_cbc_misuse(c):
     """the malformed stream for cbc: wrong key / IV sizes, missing key / IV"""
     rng = c.rng
@@ -240,7 +291,8 @@ def main():
     c.rule = ("cases = protocol lines: (dg|hmac) x {md5,sha1,sha224,sha256,sha384,sha512} x message lengths 0..2B+2 and every "
               "block boundary -9..+2 up to 4 KiB x one-shot / random chunkings / all cuts of 1..7-byte messages / all 2-cuts and "
               "sampled 3-cuts around B and 2B x keys of 0..3 blocks x 1..4 messages per object; key text: all 1-byte strings, "
-              "edge-byte pairs, random valid/invalid hex, key files; cbc: random call sequences for aes-128/192/256, wrong/missing key and IV sizes. "
+              "edge-byte pairs, random valid/invalid hex, key files; cbc: random call sequences for aes-128/192/256, wrong/missing key and IV sizes; "
+              "long messages 8191..131077 and 2 MiB on every run; cookie layer: aes_cipher / aes_factory round trips for payloads 0..80 x all key sizes through the real objects and an independent libcrypto decoder. "
               "non-trivial = a digest/hmac line whose message crosses at least one block boundary or is fed in >= 2 appends or "
               "reuses the object, a key line that is rejected or yields >= 1 byte, a cbc line with >= 2 calls; distinct = distinct lines")
     c.trusted += [
@@ -254,6 +306,8 @@ def main():
         "little-endian host (md5_process reads X[k] through a word pointer; the translated big-endian branch is the model)",
         "SHA-2 / AES block function are OpenSSL's: the theorems hold for any lawful streaming digest / any block permutation",
         "cbc: whole 16-byte blocks only (the property's quantifier); OpenSSL's handling of a trailing partial block is not modelled",
+        "AES_cbc_encrypt behaves as documented (CbcExt.Standard: SP 800-38A chaining, ivec left holding the last cipher block); checked differentially against raw AES block calls",
+        "SHA-1 is the standard's function for messages < 2^61 bytes (length_field_exact_domain); beyond that code and spec agree on the length taken mod 2^64",
     ]
     scale = 5 if c.tier == "thorough" else 1
 
@@ -278,6 +332,7 @@ def main():
         rp = json.load(open(c.replay_path))
         cases = [rp["case"]] if "case" in rp else []
         cbc_meta = {}
+        cookie_lines, cookie_expect = [], []
     else:
         hash_cases = gen_hash_cases(c, scale)
         key_cases = gen_key_cases(c, scale)
@@ -287,12 +342,16 @@ def main():
             c.broke("cbc oracle (raw AES answers from libcrypto)", err)
             resolved, meta = [], []
         cbc_meta = {l: p for l, p in zip(resolved, meta)}
-        cases = corpus + hash_cases + key_cases + resolved + gen_cbc_misuse(c)
+        cookie_lines, cookie_expect = gen_cookie_cases(c, scale)
+        cases = corpus + hash_cases + key_cases + resolved + gen_cbc_misuse(c) + cookie_lines
     cases = list(dict.fromkeys(cases))
 
     big = [l for l in cases if l.startswith("big ")]
     ext = [l for l in cases if l.split()[0] in ("dg", "dg2", "hmac", "hmac2") and l.split()[1] not in BUNDLED]
-    main_cases = [l for l in cases if l not in set(big) and l not in set(ext)]
+    cookie = [l for l in cases if l.split()[0] in ("aesrt", "aesfac")]
+    cookie_exp = dict(zip(cookie_lines, cookie_expect))
+    skip = set(big) | set(ext) | set(cookie)
+    main_cases = [l for l in cases if l not in skip]
 
     def nontriv(cs, o):
         w = cs.split()
@@ -315,12 +374,14 @@ def main():
         f_m = ex.submit(c.run_lines, model, main_cases)
         f_r = ex.submit(c.run_lines, hbin, ref_cases, ["ref"])
         f_e = ex.submit(c.run_lines, hbin, ext)
+        f_c = ex.submit(c.run_lines, hbin, cookie)
         f_b = [ex.submit(c.run_lines, hbin, [l]) for l in big]          # one process per long message
         f_br = [ex.submit(c.run_lines, hbin, [l], ["ref"]) for l in big]
         rc_i, out_i, err_i = f_i.result()
         rc_m, out_m, err_m = f_m.result()
         rc_r, out_r, err_r = f_r.result()
         rc_e, out_e, err_e = f_e.result()
+        rc_c, out_c, err_c = f_c.result()
         big_runs = ([f.result() for f in f_b], [f.result() for f in f_br])
     # ---- stream 1: implementation vs Lean model (bundled digests, hmac over them, key, cbc)
     diffs = []
@@ -355,12 +416,29 @@ def main():
         if k:
             c.nontrivial.add(k)
 
+    # ---- stream 4: cookie layer (aes_cipher / aes_factory): round trips, independent decoder, expected length
+    cookie_bad = []
+    if rc_c != 0:
+        ext_crash = ext_crash or {"case": cookie[len(out_c)] if len(out_c) < len(cookie) else None, "stderr": err_c}
+    c.evaluations += len(cookie)
+    c.traces_validated += len(out_c)
+    for k, l in enumerate(cookie):
+        o = out_c[k] if k < len(out_c) else None
+        if o is None:
+            continue
+        want = cookie_exp.get(l)
+        if (want is not None and o != want) or (want is None and not (o.startswith("ok ") or o == "refused")):
+            cookie_bad.append((l, f"aes_cipher/aes_factory round trip: got '{o}' expected '{want}'"))
+        elif o.startswith("ok "):
+            c.nontrivial.add(l)
+
     impl_of = {l: (out_i[k] if k < len(out_i) else None) for k, l in enumerate(main_cases)}
+    impl_of.update({l: (out_c[k] if k < len(out_c) else None) for k, l in enumerate(cookie)})
     impl_of.update({l: (out_e[k] if k < len(out_e) else None) for k, l in enumerate(ext)})
     model_of = {l: (out_m[k] if k < len(out_m) else None) for k, l in enumerate(main_cases)}
     ref_of = {l: (out_r[k] if k < len(out_r) else None) for k, l in enumerate(ref_cases)}
 
-    bad = []          # (case, reason)
+    bad = list(cookie_bad)          # (case, reason)
     jlines, jcases = [], []
     for l in main_cases + ext:
         o = impl_of.get(l)
@@ -379,7 +457,7 @@ def main():
                     bad.append((l, "wrong number of read-outs"))
                     continue
                 for m, d in zip(msgs, ds):
-                    if len(m) <= 9000:
+                    if len(m) <= 300000:
                         jl = f"J {w[1]} {hexs(m)} {d}" if key is None else f"J hmac {w[1]} {hexs(key)} {hexs(m)} {d}"
                         jlines.append(jl); jcases.append(l)
         elif w[0] == "key":
@@ -432,6 +510,8 @@ def main():
     for cs in cases:
         w = cs.split()
         k = w[0] + (":" + w[1] if w[0] in ("dg", "dg2", "hmac", "hmac2", "cbc", "big") else "")
+        if w[0] in ("aesrt", "aesfac"):
+            k = w[0] + ":" + str(128 if not any(x in w[1] for x in ("192", "256")) else (192 if "192" in w[1] else 256))
         dist[k] = dist.get(k, 0) + 1
     c.extra_cov["op_distribution"] = dist
     pick = [0, len(main_cases) // 3, len(main_cases) // 2, len(main_cases) - 1] if len(main_cases) > 4 else range(len(main_cases))
